@@ -1,4 +1,4 @@
-\* quick tier: 2 faults on the most concurrent shape (batch 2, 2 fetchers, 2 submitters), honest source
+\* thorough tier: as MigrillianDeep, honest and forked source
 CONSTANTS
   MaxIdx = 4
   FaultKinds = {"short", "fetchErr", "quota", "fatal", "rootErr", "sthErr", "consErr", "cancel", "revoke"}
@@ -10,7 +10,7 @@ CONSTANTS
   SubmitterCounts = {2}
   Modes = {"run", "master"}
   Conts = {TRUE, FALSE}
-  Forks = {FALSE}
+  Forks = {TRUE, FALSE}
   MaxFaults = 2
   FaultBudgets = {2}
   MaxRestarts = 1
